@@ -178,8 +178,17 @@ def dump_delay(d):
 TWO_PI = 2.0 * 3.141592653589793238462643383279502884
 
 
+def reactant_cols(spec, species_list):
+    """reactant multiplicities (immediate + delayed) per reaction over the model's species order."""
+    cols = []
+    for r in spec["reactions"]:
+        names = list(r["reactants"]) + list(r.get("dreactants", []) or [])
+        cols.append([names.count(s) for s in species_list])
+    return cols
+
+
 def sim_job(M, kind, times, seed, dt, t0=0.0, safe=False, num="float", x0=None, vol0=1.0, volmodel=None,
-            qlen=None, qdt=None, fuel=2000000, want_log=False):
+            qlen=None, qdt=None, fuel=2000000, want_log=False, spec=None):
     """Driver job describing the interface a simulator sees, dumped from the real Model."""
     enc = f2b
     U = np.array(M.py_get_update_array())
@@ -197,6 +206,10 @@ def sim_job(M, kind, times, seed, dt, t0=0.0, safe=False, num="float", x0=None, 
            "p": [enc(v) for v in M.get_parameter_values()],
            "times": [enc(v) for v in times], "seed": int(seed), "vol0": enc(vol0), "fuel": fuel,
            "wantLog": bool(want_log)}
+    if spec is not None:
+        job["R"] = reactant_cols(spec, M.get_species_list())
+    elif safe:
+        raise ValueError("sim_job: the safe interface needs the reaction definitions (pass spec=)")
     if volmodel is not None:
         job["volmodel"] = volmodel
     if qlen is not None:
